@@ -12,11 +12,12 @@ open Ord Ord.Index Outcome
 /-! ### single-run frame: between commits the concrete tables only lose `utxo` rows -/
 
 /-- `x` (later) against `y` (earlier): same `seq2sp`, `utxo` rows only removed -/
-def Sub (x y : Tri) : Prop := x.seq2sp = y.seq2sp ∧ ∀ p ∈ x.utxo, p ∈ y.utxo
+def Sub (x y : Tri) : Prop :=
+  x.seq2sp = y.seq2sp ∧ (∀ p ∈ x.utxo, p ∈ y.utxo) ∧ (y.script2out.Nodup → x.script2out.Nodup)
 
-theorem Sub.refl (x : Tri) : Sub x x := ⟨rfl, fun _ h => h⟩
+theorem Sub.refl (x : Tri) : Sub x x := ⟨rfl, fun _ h => h, id⟩
 theorem Sub.trans {x y z : Tri} (h1 : Sub x y) (h2 : Sub y z) : Sub x z :=
-  ⟨h1.1.trans h2.1, fun p hp => h2.2 p (h1.2 p hp)⟩
+  ⟨h1.1.trans h2.1, fun p hp => h2.2.1 p (h1.2.1 p hp), fun h => h1.2.2 (h2.2.2 h)⟩
 theorem Sub.of_eq {x y : Tri} (h : x = y) : Sub x y := h ▸ Sub.refl x
 
 theorem mem_erase_sub {κ ν : Type} [BEq κ] (l : List (κ × ν)) (k : κ) (p : κ × ν) (h : p ∈ AL.erase l k) : p ∈ l := by
@@ -41,10 +42,10 @@ theorem takeOne_sub (cfg : Cfg) (bc : BlockCtx) (i : TxIn) (bc' : BlockCtx) (e :
       split at h
       · split at h
         · simp only [Outcome.ok.injEq, Prod.mk.injEq] at h; rw [← h.1]
-          exact ⟨rfl, fun p hp => mem_erase_sub _ _ p hp⟩
+          exact ⟨rfl, fun p hp => mem_erase_sub _ _ p hp, fun hn => List.Nodup.sublist List.filter_sublist hn⟩
         · cases h
       · simp only [Outcome.ok.injEq, Prod.mk.injEq] at h; rw [← h.1]
-        exact ⟨rfl, fun p hp => mem_erase_sub _ _ p hp⟩
+        exact ⟨rfl, fun p hp => mem_erase_sub _ _ p hp, id⟩
     · cases h
 
 theorem takeInputEntries_sub (cfg : Cfg) (inputs : List TxIn) (bc : BlockCtx) (acc : List (TxIn × UtxoEntry))
@@ -217,6 +218,65 @@ theorem indexBlocksC_rel (cfg : Cfg) (bs : List Block) (seen : List Txid) (s : S
         simp only [OutRel] at h1
         simp only
         exact ih _ s1 a1 h1.2 hc.2
+
+/-! ### `seq2sp` keys and `script2out` rows stay duplicate-free -/
+
+/-- no duplicate `seq2sp` keys, no duplicate `script2out` rows -/
+def WF2 (x : Tri) : Prop := (AL.keys x.seq2sp).Nodup ∧ x.script2out.Nodup
+
+theorem Sub.wf2 {x y : Tri} (h : Sub x y) (hy : WF2 y) : WF2 x := ⟨h.1 ▸ hy.1, h.2.2 hy.2⟩
+
+theorem nodup_foldl_set (op : OutPoint) (l : List (Nat × Nat)) (m : List (Nat × SatPoint)) (h : (AL.keys m).Nodup) :
+    (AL.keys (l.foldl (fun m (p : Nat × Nat) => AL.set m p.1 ⟨op, p.2⟩) m)).Nodup := by
+  induction l generalizing m with
+  | nil => exact h
+  | cons p rest ih => exact ih _ (AL.nodup_set _ _ _ h)
+
+theorem wf2_flushEntry (cfg : Cfg) (st : State) (op : OutPoint) (e : UtxoEntry) (h : WF2 (tri st)) :
+    WF2 (tri (flushEntry cfg st op e)) := by
+  refine ⟨?_, ?_⟩
+  · show (AL.keys (flushEntry cfg st op e).seq2sp).Nodup
+    rw [flushEntry_seq2sp]
+    split
+    · exact nodup_foldl_set _ _ _ h.1
+    · exact h.1
+  · show (flushEntry cfg st op e).script2out.Nodup
+    rw [flushEntry_script2out]
+    split
+    · exact nodup_insertUnique _ _ h.2
+    · exact h.2
+
+theorem wf2_flushCache (cfg : Cfg) (c : Cache) (st : State) (h : WF2 (tri st)) : WF2 (tri (flushCache cfg st c)) := by
+  induction c generalizing st with
+  | nil => exact h
+  | cons p rest ih =>
+    obtain ⟨op, e⟩ := p
+    rw [flushCache_cons]
+    exact ih _ (wf2_flushEntry cfg st op e h)
+
+theorem wf2_runBatch (cfg : Cfg) (bs : List Block) (s s' : Store) (h : runBatch cfg bs s = .ok s')
+    (hw : WF2 (tri s.st)) : WF2 (tri s'.st) := by
+  rw [runBatch_eq] at h
+  cases hE : indexBlocksC cfg bs s with
+  | panic e => rw [hE] at h; cases h
+  | err e => rw [hE] at h; cases h
+  | ok sE =>
+    rw [hE] at h
+    simp only [omap_ok, Outcome.ok.injEq] at h
+    rw [← h]
+    exact wf2_flushCache cfg _ _ ((indexBlocksC_sub cfg bs s sE hE).wf2 hw)
+
+theorem wf2_runBatches (cfg : Cfg) (sched : List (List Block)) (s s' : Store) (h : runBatches cfg sched s = .ok s')
+    (hw : WF2 (tri s.st)) : WF2 (tri s'.st) := by
+  induction sched generalizing s with
+  | nil => simp only [runBatches, Outcome.ok.injEq] at h; rw [← h]; exact hw
+  | cons batch rest ih =>
+    simp only [runBatches] at h
+    split at h
+    · cases h
+    · cases h
+    · rename_i s1 h1
+      exact ih _ h (wf2_runBatch cfg batch s s1 h1 hw)
 
 /-! ### the abstract `seq2sp` never loses a key -/
 
@@ -451,7 +511,7 @@ theorem batch_seq2sp (cfg : Cfg) (bs : List Block) (seen : List Txid) (s : Store
           have hnk : sp'.outpoint ∉ AL.keys sE.cache := fun hk => hnw _ hk e1 he1 _ hm1
           rw [get_flushCache_utxo cfg _ _ hrel.cinvC.nodup, (AL.get_eq_none_iff _ _).2 hnk] at he1
           simp only at he1
-          have h2 : (sp'.outpoint, e1) ∈ s.st.utxo := hsub.2 _ (AL.mem_of_get he1)
+          have h2 : (sp'.outpoint, e1) ∈ s.st.utxo := hsub.2.1 _ (AL.mem_of_get he1)
           have h3 : AL.get s.st.utxo sp'.outpoint = some e1 := AL.get_of_mem hS.tinvC.nodup h2
           rw [hU] at h3
           exact ((hca seq sp').2 ⟨e1, h3, hm1⟩)
